@@ -42,6 +42,12 @@ def record_control(tid: str, tt, seed: int, calls: int, with_history: bool) -> d
              "forbidden": sorted(rng.sample(range(1, n + 1), rng.choice([0, 0, 1, 2]) if n >= 2 else 0)),
              "sonly": rng.random() < 0.5, "skipff": (not fresh) and rng.random() < 0.3, "fresh": fresh, "raised": False,
              "exc": "", "res": [], "hist": hist, "k": "control"}
+        import signal
+
+        def _alarm(_s, _f):
+            raise TimeoutError("Hang: succession_control did not return within 60 s")
+        _old = signal.signal(signal.SIGALRM, _alarm)
+        signal.setitimer(signal.ITIMER_REAL, 60.0)
         try:
             r = succession_control(sd, {names[i]: v for i, v in enumerate(target) if v != 2}, strategy=e["strategy"],
                                    max_drivers_per_succession_node=None if e["bound"] < 0 else e["bound"],
@@ -54,6 +60,9 @@ def record_control(tid: str, tt, seed: int, calls: int, with_history: bool) -> d
         except Exception as ex:  # noqa: BLE001
             e["raised"] = True
             e["exc"] = type(ex).__name__ + ": " + str(ex)[:100]
+        finally:
+            signal.setitimer(signal.ITIMER_REAL, 0)
+            signal.signal(signal.SIGALRM, _old)
         events.append(e)
     return {"tid": tid, "net": {"n": n, "f": tt}, "events": events}
 
